@@ -176,6 +176,25 @@ pub fn check(case: &Case, st: &mut Stats) -> Result<(), Violation> {
         for j in 0..3 {
             let d = (codes[i][j] as f64 - want[j]).abs();
             if !(d <= tol) {
+                let bad = |q: [f32; 3]| -> bool {
+                    let r = if case.u8_storage { encode::<u8>(c, &[q], 1, 1, false) } else { encode::<u16>(c, &[q], 1, 1, false) };
+                    match r {
+                        Ok((cd, _, _, _)) => {
+                            let w = ideal(c, q);
+                            (0..3).any(|k| !((cd[0][k] as f64 - w[k]).abs() <= tol))
+                        }
+                        Err(_) => false,
+                    }
+                };
+                let small = minimize_px(*p, -0.5, 1.5, bad);
+                if small != *p {
+                    return Err(fail(
+                        format!("pixel {:?} (shrunk from {:?}) plane {}: ideal codes {:?}, encoder is off by more than {:.6}; cfg {}", small, p, j, ideal(c, small), tol, cfg_json(c)),
+                        &[small],
+                        1,
+                        1,
+                    ));
+                }
                 return Err(fail(
                     format!(
                         "pixel {:?} plane {}: code {} but ideal {:.6} (|diff| {:.6} > {:.6}) cfg {}",
@@ -214,7 +233,7 @@ pub fn check(case: &Case, st: &mut Stats) -> Result<(), Violation> {
 }
 
 pub fn run(ctx: &Ctx, st: &mut Stats) -> Vec<Violation> {
-    let mut v = run_proptest(ctx, st, "random", ctx.pick(12000, 200000), strategy, check);
+    let mut v = run_proptest(ctx, st, "random", ctx.cases(60_000, 600_000), strategy, check);
     if !v.is_empty() {
         return v;
     }
@@ -234,7 +253,7 @@ fn lattice(ctx: &Ctx, st: &mut Stats) -> Vec<Violation> {
             }
         }
     }
-    let side: usize = ctx.pick(24, 96);
+    let side: usize = if ctx.light { 16 } else { ctx.pick(40, 96) };
     let quick = ctx.quick();
     let seed0 = ctx.seed;
     par_sweep(ctx, st, jobs.len() as u64, |lo, hi, st| {
